@@ -152,8 +152,14 @@ class Spectrum:
 
         if isinstance(other, (int, float, list, tuple, np.ndarray, np.number)):
             wave = self.wave
+            value = self.value
+            if value.dtype.kind in 'biu':
+                # the values are real numbers whatever integer type they were
+                # typed in (uint8 * 2 would wrap, int ** -1 would raise); the
+                # Spectrum-Spectrum path works in floating point as well
+                value = value.astype(float)
             try:
-                value = ufunc(self.value, other)
+                value = ufunc(value, other)
             except ValueError:
                 raise
 
